@@ -239,7 +239,7 @@ def cxx_object(src, tag, flags, compiler=None):
     base = re.sub(r"[^A-Za-z0-9_]", "_", os.path.relpath(src, "/"))
     obj = os.path.join(od, base + ".o"); dep = obj + ".d"; hf = obj + ".hash"
     deps = _parse_dep(dep)
-    key = " ".join([compiler] + flags)
+    key = " ".join([compiler] + flags + repo_includes() + [src])
     if deps is not None and os.path.exists(obj) and os.path.exists(hf):
         if open(hf).read() == _hash_files(deps, key):
             return obj, True, ""
